@@ -59,8 +59,10 @@ def compare(run, state, fields=None):
     return diffs
 
 
-def replay_path(prog, plan, out_missing, nodes, init, path):
-    run = core_real.Run(prog, plan, out_missing)
+def replay_path(progs, plans, nodes, init, path):
+    S0 = nodes[init]['S']
+    pr = progs[S0['pi'] - 1]
+    run = core_real.Run(pr['steps'], plans[S0['pl'] - 1], pr['outMissing'])
     prev = nodes[init]
     d = compare(run, prev)
     if d:
@@ -77,23 +79,28 @@ def replay_path(prog, plan, out_missing, nodes, init, path):
     return None
 
 
-def explore_and_replay(name, prog, plan=(), fixes=(), alphabet=core_model.ALL_REQUESTS, k=2, out_missing=False,
-                       limit=None, invariants=(), workers=None):
+def explore_and_replay(name, progs, plans=((),), fixes=(), alphabet=core_model.ALL_REQUESTS, k=2,
+                       limit=None, invariants=(), workers=None, base='ProcessCore'):
     """TLC on the bounded instance (no VIEW: states are behaviour prefixes), dump, replay every maximal path."""
     cfg_extra = ''.join('INVARIANT %s\n' % i for i in invariants)
-    tla, cfg = core_model.mc_module('MC_' + name, prog, plan, fixes, alphabet, k, out_missing, cfg_extra=cfg_extra,
-                                    base='ProcessCore')
+    plans = [list(p) for p in plans]
+    tla, cfg = core_model.mc_module('MC_' + name, progs, plans, fixes, alphabet, k, cfg_extra=cfg_extra, base=base)
     with tlc.Workdir() as wd:
         wd.write('MC_%s.tla' % name, tla)
         wd.write('MC_%s.cfg' % name, cfg)
         dot = os.path.join(wd.path, 'graph')
         res = tlc.run(wd, 'MC_%s.tla' % name, 'MC_%s.cfg' % name, args=['-dump', 'dot,actionlabels', dot], workers=workers)
         nodes, edges, inits = tlc.load_dot(dot + '.dot')
-    paths = tlc.maximal_paths(edges, inits[0], limit=limit)
+    npaths = 0
     divergent = []
-    for p in paths:
-        r = replay_path(prog, plan, out_missing, nodes, inits[0], p)
-        if r:
-            r['path'] = [a for a, _ in p]
-            divergent.append(r)
-    return {'tlc': res, 'states': len(nodes), 'paths': len(paths), 'divergent': divergent}
+    for init in inits:
+        paths = tlc.maximal_paths(edges, init, limit=limit)
+        npaths += len(paths)
+        for p in paths:
+            r = replay_path(progs, plans, nodes, init, p)
+            if r:
+                r['path'] = [a for a, _ in p]
+                r['prog'] = progs[nodes[init]['S']['pi'] - 1]['name']
+                r['plan'] = plans[nodes[init]['S']['pl'] - 1]
+                divergent.append(r)
+    return {'tlc': res, 'states': len(nodes), 'paths': npaths, 'divergent': divergent}
